@@ -1,5 +1,6 @@
 import WindVerif.Proofs.PoolSafe
 import WindVerif.Proofs.PoolLife
+import WindVerif.Proofs.PoolJoinTimeout
 /-!
 # C03 — A pool stays correct across consecutive calls and across worker replacement
 
@@ -9,6 +10,13 @@ history emitted exactly its own chunks (ordered calls in input order) under ever
 call into the next; `imap_result` gives the quiescent state between calls (no result chunk, work item or held chunk left).
 Worker availability across replacement and the termination of every call are the liveness theorems of C02
 (`imap_no_deadlock`); D19 repaired: leaving the context is covered by them too.
+
+A finite `join_timeout` (`Cfg.joinTimeout`; the model's worker has then a step `.ending` of its own between the post of its wid
+to the replace queue and its `end()`/exit, and the joins of the replace thread and of `__exit__` return whether the worker
+has exited or not): every theorem above holds for these configurations too (same statements) — EXCEPT `exit_joins_all`, which
+is false then (`C02.exit_returns_with_running_worker`) and carries the hypothesis `cfg.joinTimeout = false`.
+`successor_while_retired_runs`: the successor of a retired worker can be started while the retired worker is still running;
+`retired_still_ends`: it ends all the same, its lifecycle is intact.
 -/
 namespace WindVerif.C03
 open WindVerif.Pool
@@ -38,8 +46,43 @@ theorem imap_result (cfg : Cfg) (hf : NoFaults cfg) (s : St) (h : Reach cfg s) (
 theorem safe_reach (cfg : Cfg) (hf : NoFaults cfg) (s : St) (h : Reach cfg s) : SafeInv s := by
   first | exact WindVerif.Pool.safe_reach .. | (apply WindVerif.Pool.safe_reach <;> assumption)
 
-/-- when the pool context has been left (no join timeout), no worker is running — replaced workers included -/
-theorem exit_joins_all (cfg : Cfg) (s : St) (h : Reach cfg s) (hd : s.cpc = .done) : AllExited s := by
+/-- when the pool context has been left (no join timeout: `join_timeout=None`), no worker is running — replaced workers
+included.  HYPOTHESIS `cfg.joinTimeout = false` ADDED: with a finite join timeout the statement is false
+(`C02.exit_returns_with_running_worker`); what remains true then is `C02.imap_maximal_all_exited` /
+`C02.eventually_all_exited` -/
+theorem exit_joins_all (cfg : Cfg) (hjt : cfg.joinTimeout = false) (s : St) (h : Reach cfg s) (hd : s.cpc = .done) :
+    AllExited s := by
   first | exact WindVerif.Pool.exit_joins_all .. | (apply WindVerif.Pool.exit_joins_all <;> assumption)
+
+/-- non-vacuity: the default (`join_timeout=None`) -/
+example : d19Cfg.joinTimeout = false ∧ (⟨1, none, none, false, none, false, [⟨1, true⟩], [], [], false, false⟩ : Cfg).joinTimeout = false := by
+  decide
+
+/-- timed joins: the situation exists in the model — a reachable state (1 worker, factory, quota 1, one call of 2 chunks,
+`joinTimeout`) in which the successor (worker 1) has been listed and started while the retired worker 0 is still running:
+its pc is `.ending`, `end` is not yet in its log -/
+theorem successor_while_retired_runs :
+    ∃ sched s, run (init jtCfg) sched = some s ∧ s.procs = [1] ∧
+      (∃ w ∈ s.workers, w.wid = 0 ∧ w.pc = .ending ∧ w.log = [.begin, .item 0]) ∧
+      (∃ w ∈ s.workers, w.wid = 1 ∧ w.pc = .bfClear) := by
+  first | exact WindVerif.Pool.successor_while_retired_runs .. | (apply WindVerif.Pool.successor_while_retired_runs <;> assumption)
+
+/-- timed joins: in every reachable state each worker's log is still `begin · item* · end` cut off where the worker is
+(`LifeOk`, the lifecycle theorem of C04, unchanged): `begin` at most once, `end_` at most once, both exactly once when the
+worker has exited; a retired worker whose successor may already run (`.ending`) has not logged `end_` yet, can always move,
+and its step logs `end_` and exits -/
+theorem retired_still_ends (cfg : Cfg) (hjt : cfg.joinTimeout = true) (s : St) (h : Reach cfg s) (w : Worker)
+    (hw : w ∈ s.workers) :
+    LifeOk cfg w ∧ w.log.count .begin ≤ 1 ∧ w.log.count .end_ ≤ 1 ∧
+    (w.pc = .exited → w.log.count .begin = 1 ∧ w.log.count .end_ = 1) ∧
+    (w.pc = .ending → w.log.count .end_ = 0 ∧
+      ∃ s', step s (.w w.wid) = some s' ∧ ∃ w' ∈ s'.workers, w'.wid = w.wid ∧ w'.pc = .exited ∧ w'.log = w.log ++ [.end_]) := by
+  first | exact WindVerif.Pool.retired_still_ends .. | (apply WindVerif.Pool.retired_still_ends <;> assumption)
+
+/-- non-vacuity: `jtCfg` has a join timeout, and the state of `successor_while_retired_runs` is reachable with worker 0 at
+`.ending`; one step of worker 0 later it has exited with `begin · item 0 · end` -/
+example : jtCfg.joinTimeout = true := rfl
+example : (run (init jtCfg) (jtSched ++ [.w 0])).map (fun s => s.workers.map (fun w => (w.wid, w.pc, w.log))) =
+    some [(0, .exited, [.begin, .item 0, .end_]), (1, .bfClear, [])] := by decide
 
 end WindVerif.C03
